@@ -60,7 +60,9 @@ class Ctx:
                 self.known_hits[signature] = self.known_hits.get(signature, 0) + 1
                 return
         self.all_sigs.append((kind, signature, detail[:300], bool(property_fails)))
-        if len(self.breaks) < 200:
+        # separate caps: frequent correspondence breaks must never crowd out concrete property failures
+        n_same = sum(1 for b in self.breaks if b['property_fails'] == bool(property_fails))
+        if n_same < 200:
             self.breaks.append({'kind': kind, 'signature': signature, 'detail': detail,
                                 'failing_input': failing_input, 'property_fails': bool(property_fails)})
 
